@@ -49,7 +49,11 @@ class Parser(object):
                   tabmodule=self.tabmodule)
 
     def parse(self, input):
-        return self.yacc.parse(input)
+        # Give every call its own lexer state. Without a lexer argument ply falls back on
+        # the lexer that was built last in the whole process, so all parser objects shared
+        # one cursor: nested evaluations and evaluations in other threads consumed each
+        # other's tokens.
+        return self.yacc.parse(input, lexer=self.lex.clone())
 
     def run(self):
         while 1:
